@@ -111,8 +111,14 @@ impl VRead {
     pub fn seek_current(&mut self, d: i64) -> (r: Result<u64, IoError>) { unimplemented!() }
     #[verifier::external_body]
     pub fn seek_end(&mut self, d: i64) -> (r: Result<u64, IoError>) { unimplemented!() }
+    /// `Seek::stream_position` (not used today): reports the position, changes nothing
     #[verifier::external_body]
-    pub fn stream_position(&mut self) -> (r: Result<u64, IoError>) { unimplemented!() }
+    pub fn stream_position(&mut self) -> (r: Result<u64, IoError>)
+        ensures
+            final(self).content() == old(self).content(), final(self).pos() == old(self).pos(),
+            final(self).failed() == (old(self).failed() || r is Err),
+            r is Ok ==> r->Ok_0 as int == old(self).pos(),
+    { unimplemented!() }
 }
 // `bytes.as_ref()` of BytesMut: the unconsumed bytes (second inherent impl block: _shared/bytes.rs is not edited)
 impl Cur {
@@ -203,6 +209,7 @@ pub fn map_err_to<T, E, F>(r: Result<T, E>, e: F) -> (o: Result<T, F>)
 // position encode) and, at the recursive call, the argument `Ghost(kid_tree(t, k__ - 1))`.  Erased at run time.
 //@extract fn bigtools/src/bbi/bbiread.rs read_chrom_tree_block
 //@rule R8
+//@rule R15
 //@sub /read_chrom_tree_block<R: SeekableRead>\(\s*f: &mut R,/ => read_chrom_tree_block(f: &mut VRead, min=1
 //@sub /key_size: u32,\n\) ->/ => key_size: u32,\n    Ghost(t): Ghost<CTree>,\n) -> min=1
 //@sub /let mut (\w+) = BytesMut::zeroed\(([^;]*)\);\s*(\w+)\.read_exact\(&mut \1\)\?;/ => let mut \1 = \3.read_cur(\2)?; min=0
